@@ -610,9 +610,11 @@ PROOFS = [
     {'name': 'BodyStep_apply', 'enforce': 'Pistache_Http_Private_BodyStep_apply', 'replace': [PCL, PTE], 'props': ['C01', 'C03', 'C04'], 'cost': 3},
     {'name': 'parseContentLength', 'enforce': 'Pistache_Http_Private_BodyStep_parseContentLength', 'replace': [ADV], 'props': ['C01', 'C03', 'C04'], 'cost': 5},
     {'name': 'parseTransferEncoding', 'enforce': 'Pistache_Http_Private_BodyStep_parseTransferEncoding', 'replace': [CHUNK], 'loops': 'contracts',
-     'props': ['C01', 'C03'], 'cost': 8},
+     'props': ['C01', 'C03', 'C04'], 'cost': 8},
     {'name': 'Chunk_parse', 'enforce': 'Pistache_Http_Private_BodyStep_Chunk_parse', 'replace': [ADV], 'loops': 'contracts',
-     'props': ['C01', 'C03'], 'cost': 20},
+     # C04: the chunk decoder must work from whatever reset() leaves behind: its precondition is exactly the state after reset()
+     # (size == -1, the other counters unconstrained), so a decoder that relies on more than reset() establishes fails here
+     'props': ['C01', 'C03', 'C04'], 'cost': 20},
 ]
 
 DEFAULT_EQ = {
